@@ -37,12 +37,15 @@ def configs(tier):
         cfgs.append({"name": f"{'+'.join(shapes)}-V{V}-search{search}-extras{max_extras}", "shapes": shapes, "V": V, "conv": 0, "search": search,
                      "kind": "step", "extras": True, "max_extras": max_extras})
 
-    def tpl(name, search=1):
-        cfgs.append({"name": f"template-{name}-search{search}", "template": name, "conv": 0, "search": search, "kind": "template"})
+    def tpl(name, search=1, node_order=None):
+        cfgs.append({"name": f"template-{name}-search{search}" + (f"-nodes-{node_order}" if node_order else ""), "template": name, "conv": 0,
+                     "search": search, "kind": "template", "node_order": node_order})
 
     add(["edge", "edge"], 4)
     for t in ("chain2", "star2", "trideg", "diamond2pair", "twotopo"):
         tpl(t)
+    tpl("chain2", node_order="desc")  # vertices inserted in descending order (ids are not positions)
+    tpl("star2", node_order="desc")
     if not q:
         add(["edge", "edge", "edge"], 4)
         add(["tri", "edge"], 4)
